@@ -6,8 +6,11 @@ import (
 	"strings"
 	"sync/atomic"
 
+	"github.com/mithrandie/csvq/lib/query"
+
 	"verif/harness/internal/core"
 	"verif/harness/internal/drv"
+	"verif/harness/internal/rv"
 )
 
 // Extra family for C08: a statement can also return an error because its context is cancelled (csvq polls
@@ -16,8 +19,10 @@ import (
 // and every K = 0, 1, 2, ... the statement runs under a context whose Err() reports Canceled from its K-th call
 // on, until a K is reached at which the statement completes.
 func init() {
-	core.Extend("C08", "family cancel: 17 data-changing statements (every kind, file tables of 40 and 10 records, a temporary table) x cancellation becoming visible at the K-th poll of the context for every K until the statement completes; "+
-		"the transaction holds earlier uncommitted changes of all three tables; after a cancelled statement (and some further evaluation) every table reads as before it, and a COMMIT writes exactly the earlier changes", c08CancelRun)
+	core.Extend("C08", "family cancel: 48 data-changing statements and programs (every kind; file tables of 40, 10 and 330 records, temporary tables of 20 and 330; sub-queries, joins, sorting, grouping, user functions; "+
+		"statements inside IF / WHILE / WHILE IN blocks and a user function) x cancellation becoming visible at the K-th poll of the context for every K until the statement completes (CPU flag 1: fixed order of polls; the 330-record statements also with csvq's default); "+
+		"the transaction holds earlier uncommitted changes of all five tables; after a cancelled statement (and some further evaluation) every table reads well formed and as before it, and a COMMIT writes exactly the earlier changes; "+
+		"after a cancelled program with control flow the tables are in the state after 0..n whole statements of it and COMMIT writes that state", c08CancelRun)
 }
 
 type c08PollCtx struct {
@@ -33,24 +38,78 @@ func (c c08PollCtx) Err() error {
 	return nil
 }
 
-var c08CancelStatements = []string{
-	"UPDATE t SET b = b || '!' WHERE a > 3",
-	"UPDATE t, u SET t.b = u.w, u.w = t.a FROM t JOIN u ON t.k = u.k",
-	"DELETE FROM t WHERE a % 2 = 0",
-	"DELETE t, u FROM t JOIN u ON t.k = u.k",
-	"INSERT INTO t SELECT a + 100, k, b FROM t",
-	"INSERT INTO t VALUES " + c08Rows(20),
-	"REPLACE INTO t (a, k, b) USING (k) SELECT a + 1, k, 'R' FROM t WHERE a < 20",
-	"REPLACE INTO t (k, b) USING (k) VALUES ('k1', 'x'), ('new1', 'y'), ('k17', 'z'), ('new2', 'w'), ('k33', 'v')",
-	"ALTER TABLE t ADD c DEFAULT a * 2",
-	"ALTER TABLE t DROP b",
-	"ALTER TABLE t RENAME b TO bb",
-	"CREATE TABLE `n.csv` (x, y) AS SELECT a, b FROM t",
-	"UPDATE tmp SET n = n + 1",
-	"DELETE FROM tmp WHERE n > 5",
-	"INSERT INTO tmp SELECT k, n FROM tmp",
-	"REPLACE INTO tmp (k, n) USING (k) SELECT k, n + 1 FROM tmp",
-	"ALTER TABLE tmp ADD c DEFAULT n * 2",
+// c08CancelProg is one entry of the sweep: a statement, or a program made of several.
+type c08CancelProg struct {
+	SQL   string // runs under the polling context
+	Class string // class name in signatures; "" = the statement's first word
+	Setup string // runs before it under the live context (declarations only)
+	// Steps, for a program with control flow: the data-changing statements in the order in which the program executes
+	// them. Each of them is a statement of its own: when the program is cancelled the tables have to be in the state
+	// after some number (0..all) of them, never in between, and COMMIT writes exactly that state.
+	Steps []string
+}
+
+var c08CancelStatements = []c08CancelProg{
+	{SQL: "UPDATE t SET b = b || '!' WHERE a > 3"},
+	{SQL: "UPDATE t, u SET t.b = u.w, u.w = t.a FROM t JOIN u ON t.k = u.k"},
+	{SQL: "DELETE FROM t WHERE a % 2 = 0"},
+	{SQL: "DELETE t, u FROM t JOIN u ON t.k = u.k"},
+	{SQL: "INSERT INTO t SELECT a + 100, k, b FROM t"},
+	{SQL: "INSERT INTO t VALUES " + c08Rows(20)},
+	{SQL: "REPLACE INTO t (a, k, b) USING (k) SELECT a + 1, k, 'R' FROM t WHERE a < 20"},
+	{SQL: "REPLACE INTO t (k, b) USING (k) VALUES ('k1', 'x'), ('new1', 'y'), ('k17', 'z'), ('new2', 'w'), ('k33', 'v')"},
+	{SQL: "ALTER TABLE t ADD c DEFAULT a * 2"},
+	{SQL: "ALTER TABLE t DROP b"},
+	{SQL: "ALTER TABLE t RENAME b TO bb"},
+	{SQL: "CREATE TABLE `n.csv` (x, y) AS SELECT a, b FROM t"},
+	{SQL: "UPDATE tmp SET n = n + 1"},
+	{SQL: "DELETE FROM tmp WHERE n > 5"},
+	{SQL: "INSERT INTO tmp SELECT k, n FROM tmp"},
+	{SQL: "REPLACE INTO tmp (k, n) USING (k) SELECT k, n + 1 FROM tmp"},
+	{SQL: "ALTER TABLE tmp ADD c DEFAULT n * 2"},
+
+	// since round 8: the statement kinds the list lacked
+	{SQL: "ALTER TABLE tmp DROP n"},
+	{SQL: "ALTER TABLE tmp RENAME n TO nn"},
+	{SQL: "ALTER TABLE t DROP (a, b)"},
+	{SQL: "ALTER TABLE t ADD (c1, c2 DEFAULT a || k) AFTER a"},
+	{SQL: "CREATE TABLE `n.csv` (x, y)"},
+	{SQL: "CREATE TABLE `u.csv` (x, y) AS SELECT a, b FROM t"}, // the name exists: refused at whatever poll
+	{SQL: "CREATE TABLE `n.csv` (x, y) AS SELECT t.a, u.w FROM t JOIN u ON t.k = u.k ORDER BY u.w DESC"},
+	{SQL: "DELETE FROM t WHERE k IN (SELECT k FROM u)"},
+	{SQL: "UPDATE t SET b = (SELECT w FROM u WHERE u.k = t.k) WHERE a <= 12"},
+	{SQL: "INSERT INTO tmp (k, n) SELECT b, COUNT(*) FROM t GROUP BY b"},
+	{SQL: "UPDATE t SET b = g(b) WHERE a > 3", Setup: "DECLARE g FUNCTION (@x) AS BEGIN RETURN @x || '?'; END;"},
+
+	// statements inside control flow and user functions
+	{SQL: "IF (SELECT COUNT(*) FROM t) > 0 THEN UPDATE t SET b = b || '!' WHERE a > 3; END IF;", Class: "IF-block",
+		Steps: []string{"UPDATE t SET b = b || '!' WHERE a > 3"}},
+	{SQL: "IF FALSE THEN SELECT 1; ELSEIF TRUE THEN DELETE FROM tmp WHERE n > 5; INSERT INTO t SELECT a + 100, k, b FROM t; ELSE SELECT 2; END IF;", Class: "IF-block",
+		Steps: []string{"DELETE FROM tmp WHERE n > 5", "INSERT INTO t SELECT a + 100, k, b FROM t"}},
+	{SQL: "VAR @i := 0; WHILE @i < 2 DO UPDATE t SET b = b || '+' WHERE a % 2 = @i; @i := @i + 1; END WHILE;", Class: "WHILE-loop",
+		Steps: []string{"UPDATE t SET b = b || '+' WHERE a % 2 = 0", "UPDATE t SET b = b || '+' WHERE a % 2 = 1"}},
+	{SQL: "DECLARE cur CURSOR FOR SELECT k FROM u WHERE w <= 30; OPEN cur; VAR @k; WHILE @k IN cur DO DELETE FROM t WHERE k = @k; END WHILE; CLOSE cur;", Class: "WHILE-IN-cursor",
+		Steps: []string{"DELETE FROM t WHERE k = 'k4'", "DELETE FROM t WHERE k = 'k8'", "DELETE FROM t WHERE k = 'k12'"}},
+	{SQL: "SELECT f('x');", Class: "user-function", Setup: "DECLARE f FUNCTION (@x) AS BEGIN UPDATE t SET b = @x WHERE a > 3; INSERT INTO tmp VALUES ('f', 1); RETURN 1; END;",
+		Steps: []string{"UPDATE t SET b = 'x' WHERE a > 3", "INSERT INTO tmp VALUES ('f', 1)"}},
+
+	// a table of 330 records: the polls made before every 16th record inside the loops of the filter, the join, the
+	// sort, the grouping, the conversion of the records (View.Fix) and the installation are reached
+	{SQL: "UPDATE big SET v = v || '!' WHERE id % 3 = 0"},
+	{SQL: "DELETE FROM big WHERE id % 2 = 0"},
+	{SQL: "INSERT INTO big SELECT id + 1000, g, v FROM big ORDER BY g DESC, id"},
+	{SQL: "UPDATE big SET v = t.b FROM big JOIN t ON big.g = t.a"},
+	{SQL: "DELETE big, t FROM big JOIN t ON big.id = t.a"},
+	{SQL: "REPLACE INTO big (id, g, v) USING (id) SELECT id + 5, g, 'R' FROM big"},
+	{SQL: "ALTER TABLE big DROP g"},
+	{SQL: "ALTER TABLE big ADD z DEFAULT id * 2 FIRST"},
+	{SQL: "ALTER TABLE big RENAME v TO vv"},
+	{SQL: "CREATE TABLE `n.csv` (x, y) AS SELECT id, v FROM big WHERE id > 10 ORDER BY v"},
+	{SQL: "INSERT INTO tmp (k, n) SELECT 'g' || g, COUNT(*) FROM big GROUP BY g"},
+	{SQL: "UPDATE bigtmp SET v = v || '!' WHERE id % 3 = 0"},
+	{SQL: "DELETE FROM bigtmp WHERE id % 2 = 0"},
+	{SQL: "ALTER TABLE bigtmp DROP g"},
+	{SQL: "INSERT INTO bigtmp SELECT id + 1000, g, v FROM big WHERE g < 20"},
 }
 
 func c08Rows(n int) string {
@@ -62,7 +121,7 @@ func c08Rows(n int) string {
 }
 
 func c08CancelFiles() map[string]string {
-	var t, u strings.Builder
+	var t, u, big strings.Builder
 	t.WriteString("a,k,b\n")
 	for i := 1; i <= 40; i++ {
 		fmt.Fprintf(&t, "%d,k%d,b%d\n", i, i, i)
@@ -71,30 +130,19 @@ func c08CancelFiles() map[string]string {
 	for i := 1; i <= 10; i++ {
 		fmt.Fprintf(&u, "k%d,%d\n", i*4, i*10)
 	}
-	return map[string]string{"t.csv": t.String(), "u.csv": u.String()}
+	big.WriteString("id,g,v\n")
+	for i := 1; i <= 330; i++ {
+		fmt.Fprintf(&big, "%d,%d,v%d\n", i, i%40+1, i%7)
+	}
+	return map[string]string{"t.csv": t.String(), "u.csv": u.String(), "big.csv": big.String()}
 }
 
-const c08CancelPreamble = "DECLARE tmp VIEW (k, n); INSERT INTO tmp SELECT k, a FROM t WHERE a <= 20; COMMIT;"
+const c08CancelPreamble = "DECLARE tmp VIEW (k, n); INSERT INTO tmp SELECT k, a FROM t WHERE a <= 20; DECLARE bigtmp VIEW (id, g, v) AS SELECT id, g, v FROM big; COMMIT;"
 
 // earlier, uncommitted changes of the same transaction: a cancelled statement must not lose them either
-const c08CancelEarlier = "UPDATE t SET b = 'pre' WHERE a = 1; UPDATE u SET w = 0 WHERE k = 'k4'; UPDATE tmp SET n = -1 WHERE k = 'k2';"
+const c08CancelEarlier = "UPDATE t SET b = 'pre' WHERE a = 1; UPDATE u SET w = 0 WHERE k = 'k4'; UPDATE tmp SET n = -1 WHERE k = 'k2'; UPDATE big SET v = 'pre' WHERE id = 2; UPDATE bigtmp SET v = 'pre' WHERE id = 3;"
 
-var c08CancelBaseline map[string]string // the files after the earlier changes alone were committed
-
-func c08CancelBase(dir string) map[string]string {
-	if c08CancelBaseline == nil {
-		drv.ClearDir(dir)
-		drv.WriteFiles(dir, c08CancelFiles())
-		env := drv.New(dir)
-		env.Tx.Flags.SetQuiet(true)
-		env.Exec(c08CancelPreamble + " " + c08CancelEarlier + " COMMIT;")
-		env.Close()
-		c08CancelBaseline = drv.DirSnapshot(dir)
-	}
-	return c08CancelBaseline
-}
-
-const c08CancelRead = "SELECT * FROM t; SELECT * FROM u; SELECT * FROM tmp;"
+const c08CancelRead = "SELECT * FROM t; SELECT * FROM u; SELECT * FROM tmp; SELECT * FROM big; SELECT * FROM bigtmp;"
 
 func c08ReadKey(env *drv.Env) (string, error) {
 	r := env.Exec(c08CancelRead)
@@ -106,105 +154,302 @@ func c08ReadKey(env *drv.Env) (string, error) {
 	}
 	var sb strings.Builder
 	for _, v := range r.Views {
-		sb.WriteString(strings.Join(drv.Header(v), ",") + "|" + drv.RowsKey(drv.Rows(v)) + "\n")
+		k, err := c08ViewKey(v)
+		if err != nil {
+			return "", err
+		}
+		sb.WriteString(k + "\n")
 	}
 	return sb.String(), nil
+}
+
+// c08ViewKey is the comparable text of a result of SELECT *. It first looks at the shape of the result: a table that
+// an interrupted statement left half-converted can hold records that are shorter or longer than the header, or cells
+// without a value; such a result is reported as an error (the callers turn it into "unreadable"), it must not bring
+// the reader down.
+func c08ViewKey(v *query.View) (string, error) {
+	hdr := drv.Header(v)
+	var sb strings.Builder
+	sb.WriteString(strings.Join(hdr, ",") + "|")
+	for i, rec := range v.RecordSet {
+		if len(rec) != len(hdr) {
+			return "", fmt.Errorf("malformed table: record %d has %d cells under a header of %d columns (%s)", i+1, len(rec), len(hdr), strings.Join(hdr, ","))
+		}
+		sb.WriteByte('[')
+		for j := range rec {
+			if len(rec[j]) < 1 || rec[j][0] == nil {
+				return "", fmt.Errorf("malformed table: record %d has no value in column %d (%s)", i+1, j+1, hdr[j])
+			}
+			if j > 0 {
+				sb.WriteByte('|')
+			}
+			sb.WriteString(rv.FromPrimary(rec[j][0]).Key())
+		}
+		sb.WriteByte(']')
+	}
+	return sb.String(), nil
+}
+
+// c08CancelState is what the tables read and what COMMIT writes after the first i of a program's Steps.
+type c08CancelState struct {
+	key   string
+	files map[string]string
+	err   error
+}
+
+var c08CancelStates = map[string][]c08CancelState{}
+
+func c08CancelOpen(dir string, prog *c08CancelProg, cpu int) (*drv.Env, error) {
+	drv.ClearDir(dir)
+	drv.WriteFiles(dir, c08CancelFiles())
+	env := drv.New(dir)
+	env.Tx.Flags.SetQuiet(true)
+	if cpu > 0 {
+		env.Tx.Flags.SetCPU(cpu)
+	}
+	if r := env.Exec(c08CancelPreamble + " " + c08CancelEarlier + " " + prog.Setup); r.Err != nil || r.Panic != nil {
+		env.Close()
+		return nil, fmt.Errorf("preamble failed: %v %v", r.Err, r.Panic)
+	}
+	return env, nil
+}
+
+// c08CancelReference: the states a cancelled program may leave - for a statement the state before it alone, for a
+// program with Steps the states after 0, 1, ..., all of them, each run without any cancellation in a session of its own.
+func c08CancelReference(dir string, prog *c08CancelProg) []c08CancelState {
+	if st, ok := c08CancelStates[prog.SQL]; ok {
+		return st
+	}
+	var states []c08CancelState
+	for i := 0; i <= len(prog.Steps); i++ {
+		var st c08CancelState
+		func() {
+			env, err := c08CancelOpen(dir, prog, 1)
+			if err != nil {
+				st.err = err
+				return
+			}
+			defer env.Close()
+			for _, step := range prog.Steps[:i] {
+				if r := env.Exec(step + ";"); r.Err != nil || r.Panic != nil {
+					st.err = fmt.Errorf("step %q of the program fails when run alone: %v %v", step, r.Err, r.Panic)
+					return
+				}
+			}
+			if st.key, st.err = c08ReadKey(env); st.err != nil {
+				return
+			}
+			if r := env.Exec("COMMIT;"); r.Err != nil || r.Panic != nil {
+				st.err = fmt.Errorf("COMMIT: %v %v", r.Err, r.Panic)
+				return
+			}
+			st.files = drv.DirSnapshot(dir)
+		}()
+		states = append(states, st)
+	}
+	c08CancelStates[prog.SQL] = states
+	return states
 }
 
 type c08CancelPayload struct {
 	Family string `json:"family"`
 	SQL    string `json:"sql"`
 	K      int64  `json:"cancel_visible_from_poll"`
+	CPU    int    `json:"cpu_flag,omitempty"` // 0 = csvq's default
 }
 
-// c08CancelOne runs one (statement, K); it returns false when the statement completed (no further K needed).
-func c08CancelOne(c *core.Ctx, dir string, sql string, k int64) bool {
-	files := c08CancelBase(dir)
-	drv.ClearDir(dir)
-	drv.WriteFiles(dir, c08CancelFiles())
-	env := drv.New(dir)
-	defer env.Close()
-	env.Tx.Flags.SetQuiet(true)
-	payload := c08CancelPayload{"cancel", sql, k}
-	if r := env.Exec(c08CancelPreamble + " " + c08CancelEarlier); r.Err != nil || r.Panic != nil {
-		c.Incomplete(fmt.Sprintf("cancel family: preamble failed: %v %v", r.Err, r.Panic))
+func c08CancelProgOf(sql string) *c08CancelProg {
+	for i := range c08CancelStatements {
+		if c08CancelStatements[i].SQL == sql {
+			return &c08CancelStatements[i]
+		}
+	}
+	return &c08CancelProg{SQL: sql}
+}
+
+func c08CancelClass(prog *c08CancelProg) string {
+	if prog.Class != "" {
+		return prog.Class
+	}
+	cls := strings.Fields(prog.SQL)[0]
+	switch {
+	case strings.Contains(prog.SQL, "bigtmp"):
+		cls += "@long-temp"
+	case strings.Contains(prog.SQL, "big"):
+		cls += "@long"
+	case len(strings.Fields(prog.SQL)) > 2 && strings.Contains(prog.SQL, "tmp"):
+		cls += "@temp"
+	}
+	return cls
+}
+
+// c08IsCancelled tells whether err is csvq's report of a cancelled context (not: any text with "cancel" in it - the
+// scratch directories of these families have it in their names, and file names appear in error messages).
+func c08IsCancelled(err error) bool {
+	if err == nil {
 		return false
 	}
+	switch err.(type) {
+	case *query.ContextCanceled, *query.ContextDone:
+		return true
+	}
+	// "[Context] context canceled" from the engine, "[Context] execution canceled" from the file layer
+	return strings.HasPrefix(err.Error(), "[Context] ")
+}
+
+// c08CancelOne runs one (statement, K); it returns false when no further K is to be tried (the statement completed,
+// or it is refused for a reason that does not depend on the context), and the number of polls the statement made.
+func c08CancelOne(c *core.Ctx, dir string, prog *c08CancelProg, k int64, cpu int) (more bool, polls int64) {
+	sql := prog.SQL
+	states := c08CancelReference(dir, prog)
+	for _, st := range states {
+		if st.err != nil {
+			c.Incomplete("cancel family: the session without cancellation fails: " + st.err.Error())
+			return false, 0
+		}
+	}
+	env, err := c08CancelOpen(dir, prog, cpu)
+	if err != nil {
+		c.Incomplete("cancel family: " + err.Error())
+		return false, 0
+	}
+	defer env.Close()
+	payload := c08CancelPayload{"cancel", sql, k, cpu}
 	before, err := c08ReadKey(env)
 	if err != nil {
 		c.Incomplete("cancel family: tables unreadable before the statement: " + err.Error())
-		return false
+		return false, 0
+	}
+	if before != states[0].key {
+		c.Incomplete("cancel family: two sessions prepared alike read different tables")
+		return false, 0
 	}
 	var calls int64
 	normal := env.Ctx
 	env.Ctx = c08PollCtx{Context: normal, calls: &calls, k: k}
 	r := env.Exec(sql)
 	env.Ctx = normal
-	cls := strings.Fields(sql)[0]
-	if len(strings.Fields(sql)) > 2 && strings.Contains(sql, "tmp") {
-		cls += "@temp"
-	}
+	cls := c08CancelClass(prog)
 	where := fmt.Sprintf("%q with the cancellation visible from poll %d of the context on (%d polls made)", sql, k, calls)
 	if r.Panic != nil {
 		c.Violate("cancel:"+cls+":panic", where+": "+fmt.Sprint(r.Panic), payload)
-		return true
+		return true, calls
 	}
 	if r.Err == nil {
-		return false // completed before (or without) noticing the cancellation
+		if len(prog.Steps) > 0 {
+			// the program ran to its end: the tables have to be in the last state of the reference, or Steps does not
+			// describe the program (a mistake of this file, nothing about csvq)
+			if done, err := c08ReadKey(env); err != nil || done != states[len(states)-1].key {
+				c.Incomplete("cancel family: the Steps given for " + sql + " do not lead to the state the completed program leaves")
+			}
+		}
+		return false, calls // completed before (or without) noticing the cancellation
 	}
-	c.Eval(fmt.Sprintf("cancel|%s|%d", sql, k), true)
-	if !strings.Contains(strings.ToLower(r.Err.Error()), "cancel") {
-		c.Observe("cancel_family_other_errors", r.Err.Error())
+	c.Eval(fmt.Sprintf("cancel|%s|%d|%d", sql, k, cpu), true)
+	more = true
+	if !c08IsCancelled(r.Err) {
+		c.Observe("cancel_family_other_errors", strings.ReplaceAll(r.Err.Error(), dir, "<dir>"))
+		more = false // refused whatever the context says; still a failed statement, looked at below
 	}
 	env.Exec(c08Churn)
 	after, err := c08ReadKey(env)
 	if err != nil {
 		c.Violate("cancel:"+cls+":tables-unreadable-after-the-cancelled-statement", where+": "+err.Error(), payload)
-		return true
+		return more, calls
 	}
-	if after != before {
-		c.Violate("cancel:"+cls+":table-changed-by-cancelled-statement", fmt.Sprintf("%s: error %q, yet the tables read\n%safterwards; before:\n%s", where, r.Err, clip(after), clip(before)), payload)
-		return true
+	var reached []int // the states of the reference the tables may be in
+	for i, st := range states {
+		if st.key == after {
+			reached = append(reached, i)
+		}
+	}
+	if len(reached) == 0 {
+		if len(prog.Steps) == 0 {
+			c.Violate("cancel:"+cls+":table-changed-by-cancelled-statement", fmt.Sprintf("%s: error %q, yet the tables read\n%safterwards; before:\n%s", where, r.Err, clip(after), clip(before)), payload)
+		} else {
+			c.Violate("cancel:"+cls+":tables-between-two-statements-of-the-cancelled-program", fmt.Sprintf("%s: error %q; the tables read\n%safterwards, which is the state after none of the 0..%d first statements of the program; before:\n%s", where, r.Err, clip(after), len(prog.Steps), clip(before)), payload)
+		}
+		return more, calls
+	}
+	if len(prog.Steps) > 0 {
+		c.Observe("cancel_family_program_stopped_after", fmt.Sprintf("%s: %d of %d statements", cls, reached[0], len(prog.Steps)))
 	}
 	if r2 := env.Exec("COMMIT;"); r2.Err != nil || r2.Panic != nil {
 		c.Violate("cancel:"+cls+":commit-fails-after-the-cancelled-statement", fmt.Sprintf("%s: COMMIT: %v %v", where, r2.Err, r2.Panic), payload)
-		return true
+		return more, calls
 	}
 	snap := drv.DirSnapshot(dir)
-	for n, b := range files {
-		if snap[n] != b {
-			c.Violate("cancel:"+cls+":commit-writes-partial-effects", fmt.Sprintf("%s: after COMMIT %s holds %q", where, n, clip(snap[n])), payload)
-			return true
-		}
-	}
-	for n := range snap {
-		if _, ok := files[n]; !ok {
-			c.Violate("cancel:"+cls+":file-left-by-cancelled-statement", fmt.Sprintf("%s: after COMMIT the directory holds %s", where, n), payload)
-			return true
-		}
-	}
-	return true
-}
-
-func c08CancelRun(c *core.Ctx) {
-	dir := core.Scratch("c08cancel")
-	for i, sql := range c08CancelStatements {
-		if !c.Mine(int64(i)) {
-			continue
-		}
-		var k int64
-		for ; k < 400; k++ {
-			if c.Expired() {
-				c.Incomplete("time budget reached in family cancel")
-				return
-			}
-			if !c08CancelOne(c, dir, sql, k) {
+	var diff string
+	for _, i := range reached {
+		diff = ""
+		files := states[i].files
+		for n, b := range files {
+			if snap[n] != b {
+				diff = fmt.Sprintf("commit-writes-partial-effects\x00after COMMIT %s holds %q", n, clip(snap[n]))
 				break
 			}
 		}
-		c.Observe("cancel_family_polls", fmt.Sprintf("%s: %d polls until completion", strings.Join(strings.Fields(sql)[:3], " "), k))
-		if k >= 400 {
-			c.Incomplete("cancel family: more than 400 polls in " + sql)
+		for n := range snap {
+			if _, ok := files[n]; !ok && diff == "" {
+				diff = fmt.Sprintf("file-left-by-cancelled-statement\x00after COMMIT the directory holds %s", n)
+			}
+		}
+		if diff == "" {
+			break
+		}
+	}
+	if diff != "" {
+		p := strings.SplitN(diff, "\x00", 2)
+		c.Violate("cancel:"+cls+":"+p[0], where+": "+p[1], payload)
+	}
+	return more, calls
+}
+
+const c08CancelMaxPolls = 3000
+
+func c08CancelRun(c *core.Ctx) {
+	dir := core.Scratch("c08cancel")
+	// CPU flag 1: every loop over the records runs in the calling goroutine and the polls of a statement come in a fixed
+	// order, so that "every K" is every point at which the statement can be interrupted. The tables of 330 records are
+	// long enough to be divided among goroutines (80 records each): their statements are swept a second time with csvq's
+	// default, where the K-th poll is whichever goroutine comes K-th (the oracle does not depend on it).
+	//
+	// The values of K of one statement are dealt out to the workers (a statement on the long table makes 900 polls); a
+	// worker goes on to the next statement at the first of its K at which the statement completes. A statement that
+	// completes makes the same number T of polls whatever K >= T it was given, so every worker stops within 16 of T.
+	var idx int64
+	for _, cpu := range []int{1, 0} {
+		for i := range c08CancelStatements {
+			prog := &c08CancelStatements[i]
+			if cpu == 0 && !strings.Contains(prog.SQL, "big") {
+				continue
+			}
+			idx++
+			var k, polls int64
+			more := true
+			for ; more && k < c08CancelMaxPolls; k++ {
+				if !c.Mine(idx*7 + k) {
+					continue
+				}
+				if c.Expired() {
+					c.Incomplete("time budget reached in family cancel")
+					return
+				}
+				more, polls = c08CancelOne(c, dir, prog, k, cpu)
+			}
+			f := strings.Fields(prog.SQL)
+			if len(f) > 3 {
+				f = f[:3]
+			}
+			if c.IsReplay {
+				fmt.Printf("%s [%s] cpu=%d: %d polls until completion\n", strings.Join(f, " "), c08CancelClass(prog), cpu, polls)
+			}
+			if cpu == 1 && !more {
+				c.Observe("cancel_family_polls", fmt.Sprintf("%s [%s]: %d polls until completion", strings.Join(f, " "), c08CancelClass(prog), polls))
+			}
+			if more {
+				c.Incomplete(fmt.Sprintf("cancel family: more than %d polls in %s", c08CancelMaxPolls, prog.SQL))
+			}
 		}
 	}
 }
